@@ -506,6 +506,10 @@ def cx(e):
             return _bool(ast.BoolOp(op=ast.Or(), values=[b, o]))
         if isinstance(t, ast.UnaryOp) and isinstance(t.op, ast.Not) and norm(t.operand) == norm(o):
             return _bool(ast.BoolOp(op=ast.Or(), values=[o, b]))
+        if norm(t) == norm(o):
+            return _bool(ast.BoolOp(op=ast.And(), values=[t, b]))        # `b if a else a`  ==  `a and b`
+        if isinstance(t, ast.UnaryOp) and isinstance(t.op, ast.Not) and norm(t.operand) == norm(b):
+            return _bool(ast.BoolOp(op=ast.And(), values=[b, o]))        # `a if not a else o`  ==  `a and o`
         ct, cn = _bool(t), _bool(t, neg=True)
         # orientation: of a test and its negation the one with the smaller printed form is canonical
         if repr(cn) < repr(ct):
@@ -704,21 +708,24 @@ def specialize(e, facts: dict):
             return n
 
         def visit_BoolOp(self, n):
-            v = known(n)
-            if v is not None:
-                return ast.copy_location(ast.Constant(value=v), n)
-            # drop operands whose value is known and neutral
+            # value semantics: `a and b` is a when a is falsy, `a or b` is a when a is truthy
+            is_and = isinstance(n.op, ast.And)
             vals = []
-            for x in n.values:
+            for i, x in enumerate(n.values):
                 kx = known(x)
+                last = i == len(n.values) - 1
                 if kx is None:
                     vals.append(self.visit(x))
-                elif isinstance(n.op, ast.And) and kx is True:
                     continue
-                elif isinstance(n.op, ast.Or) and kx is False:
+                if (kx is True) == is_and:
+                    # neutral operand: skipped unless it is the last one (then it is the value)
+                    if last:
+                        vals.append(self.visit(x))
                     continue
-                else:
-                    vals.append(self.visit(x))
+                vals.append(self.visit(x))      # decisive operand: evaluation stops here
+                break
+            if not vals:
+                return self.visit(n.values[-1])
             if len(vals) == 1:
                 return vals[0]
             n.values = vals
